@@ -53,11 +53,17 @@ Init ==
 Cur == Prog[pc]
 Running == ~killed /\ pc <= Len(Prog)
 
-(* the length of a write call in this generation: the observed program wrote NewLen bytes in its calls; a later
-   generation hands over LenOf(gen) bytes split in the same proportion (the last call takes the rest) *)
+(* the length of a write call in this generation: the observed program wrote NewLen bytes through a file descriptor
+   between its open and its close (a SESSION; a program that gives up on one file and writes the serialisation again
+   to another one has two sessions, each of NewLen bytes - checked concretely by the driver); a later generation
+   hands over LenOf(gen) bytes split in the same proportion (the last call of the session takes the rest) *)
+OpenOf(i) ==
+  LET S == {j \in 1..(i - 1) : Prog[j].op = "open" /\ Prog[j].fd = Prog[i].fd}
+  IN IF S = {} THEN 0 ELSE CHOOSE j \in S : \A k \in S : k <= j
+SameSession(i, j) == Prog[j].op = "write" /\ Prog[j].fd = Prog[i].fd /\ OpenOf(j) = OpenOf(i)
 WriteLen(i) ==
-  LET isLast == \A j \in (i + 1)..Len(Prog) : Prog[j].op # "write"
-      before == LET RECURSIVE Sum(_) Sum(j) == IF j = 0 THEN 0 ELSE (IF Prog[j].op = "write" THEN (Prog[j].n * LenOf(gen)) \div NewLen ELSE 0) + Sum(j - 1) IN Sum(i - 1)
+  LET isLast == \A j \in (i + 1)..Len(Prog) : ~SameSession(i, j)
+      before == LET RECURSIVE Sum(_) Sum(j) == IF j = 0 THEN 0 ELSE (IF SameSession(i, j) THEN (Prog[j].n * LenOf(gen)) \div NewLen ELSE 0) + Sum(j - 1) IN Sum(i - 1)
   IN IF isLast THEN LenOf(gen) - before ELSE (Prog[i].n * LenOf(gen)) \div NewLen
 
 (* what k more bytes written through fd do to the file: the bytes are version gen's serialisation in order (checked
